@@ -224,7 +224,7 @@ EPS32 = float(np.finfo(np.float32).eps)
 # float64 comparisons against an external reference or against the function's own extracted operator (same filters on both
 # sides; no filter-table precision involved): relative to gain*max|x|. Largest value seen on the pinned tree over all tiers
 # and seeds is 1e-14; a float32-rounded constant in a float64 path gives 3e-8 (seeded change C11-10 was caught only just
-# with the 1e-9 this used to be). Checks whose identity is limited by table precision (C02, C04, C12, C17, C18) keep 1e-9.
+# with the 1e-9 this used to be). Also used by C08 (reference composition; largest value seen 2e-16 of the scale). Checks whose identity is limited by table precision (C02, C04, C12, C17, C18) keep 1e-9.
 TOL64 = 1e-11
 
 
